@@ -699,6 +699,10 @@ func runC16(a vh.Args, o *vh.Oracle, r *vh.Result) error {
 			return c16Verify(a, o, r, &c)
 		case "s3prune":
 			return c16S3(a, o, r, &c)
+		case "sftpprune":
+			return c16SFTP(a, o, r, &c)
+		case "sftp-temp":
+			return c16SFTPTemp(a, r, c.Unc)
 		}
 		return fmt.Errorf("cannot replay kind %q", c.Kind)
 	}
@@ -729,5 +733,8 @@ func runC16(a vh.Args, o *vh.Oracle, r *vh.Result) error {
 			return err
 		}
 	}
-	return c16S3All(a, o, r, rng)
+	if err := c16S3All(a, o, r, rng); err != nil {
+		return err
+	}
+	return c16SFTPAll(a, o, r, rng)
 }
